@@ -128,6 +128,14 @@ int main(int argc, char* argv[]) {
       dump();
     }
     if (lindep) {
+      // as GeneralParameters does: adjust, and on a bad regularisation ask which unknowns are linearly dependent
+      int badreg = 0;
+      try { IS->solve(); }
+      catch (const GNU_gama::Exception::matvec& e) {
+        if (e.error() != GNU_gama::Exception::BadRegularization) throw;
+        badreg = 1;
+      }
+      std::cout << "BADREG " << badreg << "\n";
       std::cout << "LINDEP";
       for (int i = 1; i <= IS->unknowns_count(); i++) std::cout << ' ' << (IS->lindep(i) ? 1 : 0);
       std::cout << "\n";
